@@ -44,4 +44,4 @@ Deliver these files in {W}/seed/ :
   - demo.cpp   : a small standalone program that uses only the library and the C++ standard library; it exits 0 when the property holds on the inputs it tries and non-zero (printing what went wrong) when the property is violated. It must FAIL with your change applied and PASS on the unmodified HEAD. Compile with: g++ -std=c++17 -O1 -I include seed/demo.cpp -o {W}/seed/demo   (if the demonstration needs several translation units, another compiler or special flags, add seed/build.sh, run from the worktree root with `sh seed/build.sh`, whose exit code is the verdict)
   - notes.md   : what the change is and where, what exactly is needed for it to manifest (inputs / sequence / numeric type / compiler), why the existing tests do not notice, and the commands you ran with their results.
 
-Verify everything yourself before finishing: the test suite passes with the change applied; demo fails with the change; demo passes without it (use `git stash` / `git stash pop`, or `git apply -R`). Leave the worktree with your change APPLIED (not committed) and the files in seed/. Your final answer should be a short summary: the change, what manifests it, and the verification results.''')
+Verify everything yourself before finishing: the test suite passes with the change applied; demo fails with the change; demo passes without it (use `git apply -R seed/patch.diff` and `git apply seed/patch.diff`; never `git stash`: the stash is shared between worktrees). Leave the worktree with your change APPLIED (not committed) and the files in seed/. Your final answer should be a short summary: the change, what manifests it, and the verification results.''')
